@@ -605,6 +605,40 @@ func space4() {
 	}
 }
 
+// space5: fewer parameters than the program mentions: an absent parameter is the number 0
+// (and %i adds 1 to the first two, absent or not - ncurses gives ESC[6;1H for cup with only the
+// row)
+type namedString string
+
+func space5() {
+	if !hc.Mine(0) {
+		return
+	}
+	// a string held in a named string type is that string
+	for _, prog := range []string{"%p1%s", "%p1%l%d", "<%p1%s|%p2%s>"} {
+		w.R.Evaluations++
+		resetStatics()
+		ref := (&rt.Machine{}).Eval(prog, "http://x", "id")
+		got, pn := evalImpl(prog, []interface{}{namedString("http://x"), namedString("id")})
+		if pn != nil || (ref.Unspecified == "" && got != ref.Out) {
+			w.Violation("param-type:named string type", fmt.Sprintf("TParm(%q, namedString(\"http://x\"), namedString(\"id\")) = %q (panic %v), terminfo(5) gives %q for these strings", prog, got, pn, ref.Out), map[string]interface{}{"prog": prog})
+		}
+	}
+	progs := []string{"\x1b[%i%p1%d;%p2%dH", "\x1b[%i%p1%dG", "%i%p2%d", "%p1%d,%p2%d,%p3%d", "%i%p1%d%p2%d%p9%d", "%?%p2%t2%e-%;%p1%d", "%p2%{5}%+%d", "%i%p1%p2%+%d"}
+	for _, prog := range progs {
+		for n := 0; n <= 2; n++ {
+			for _, v := range []int{0, 5, 79} {
+				params := []interface{}{v, v + 1}[:n]
+				resetStatics()
+				compare(tcase{prog: prog, params: params, origin: "fewer parameters than mentioned"}, "absent-parameter")
+				if n == 0 {
+					break
+				}
+			}
+		}
+	}
+}
+
 func main() {
 	w = hc.Start("C07")
 	w.WatchStall(func() (string, string, interface{}) {
@@ -632,5 +666,6 @@ func main() {
 	space2()
 	space3()
 	space4()
+	space5()
 	w.Finish()
 }
